@@ -23,6 +23,7 @@ FailedInvs(i, s) ==
   \cup (IF NoStuckTransfer(s) THEN {} ELSE {"NoStuckTransfer"})
   \cup (IF \A d \in Denoms(s) : Value(s, d) = Value(Trace[StartOf(i)].state, d) THEN {} ELSE {"Holdings"})
   \cup (IF Trace[i].e.e.type = "AdvanceBlock" /\ ~Completeness(s) THEN {"Completeness"} ELSE {})
+  \cup (IF "expectDrained" \in DOMAIN Trace[i].e.e /\ ~Drained(s) THEN {"DrainedAfterCanonicalSchedule"} ELSE {})
 
 CheckLine(i) ==
   LET cur == Trace[i] IN
